@@ -126,9 +126,25 @@ def run(ctx):
                '_e_.grid.n_cells * _nc_))(_e_.field) * _cv_', cb)
     ctx.anchor(len(gv0) == 1, 'inner-product derivative in the jvec builder')
     CV, NC = gv0[0][1]['_cv_'], gv0[0][1]['_nc_']
-    cv = [n for n in ast.walk(cb) if isinstance(n, ast.Assign) and
-          ast.unparse(n.targets[0]) == CV and not isinstance(
-              n.value, ast.ListComp)]
+    cv_all = [n for n in ast.walk(cb) if isinstance(n, ast.Assign) and
+              ast.unparse(n.targets[0]) == CV]
+    # bindings of the vector: the interpolation onto the grid of THIS pair,
+    # and the per-case assembly from that vector; anything else (a value
+    # looked up in a table, a value remembered from another pair) is not the
+    # model vector on this pair's grid
+    cv = [n for n in cv_all if any(isinstance(x, ast.Name) and x.id == CV
+                                   for x in ast.walk(n.value))]
+    other = [n for n in cv_all if n not in cv and not (
+        isinstance(n.value, (ast.ListComp, ast.Call)) and
+        'maps.interpolate' in ast.unparse(n.value))]
+    ctx.check('C08.V3.source', 'jvec: vector on the computational grid is '
+              'computed for this pair', not other,
+              f'`{au.stext(other[0]) if other else ""}`: the vector that '
+              'multiplies the forward field is not the interpolation of the '
+              'input vector onto the grid of this source-frequency pair (it '
+              'is looked up / remembered): pairs with different grids get '
+              'the vector of another grid',
+              ctx.where(sm, other[0] if other else cb))
     nc = [n for n in ast.walk(cb) if isinstance(n, ast.Assign) and
           ast.unparse(n.targets[0]) == NC]
     for case, (hy, hz) in CASES.items():
@@ -314,3 +330,12 @@ def run(ctx):
     rule_VA5(ctx, 'C08.V4.adjoint_grid')
     ctx.floor('C08.V4.adjoint_sources', 5)
     ctx.floor('C08.V4.adjoint_grid', 4)
+    # a cached gradient / misfit must not survive clean(): after a model
+    # update + clean('computed') the gradient returned has to be the one of
+    # the new model (rule of C12, shared)
+    from ..core.report import Renamed
+    from . import c12 as _c12
+    _m = ctx.repo.mod(_c12.SIMS)
+    _c12.rule_OW3(Renamed(ctx, lambda r: 'C08.V4.clean' if r.startswith(
+        'C12.OW3.clean') else 'C08.V4.clean'.rsplit('.', 1)[0] + '.clean_files'),
+        _m, _c12.Effects(ctx, _m))
